@@ -127,6 +127,7 @@ func init() {
 				if gp, ok := r.(*goPanic); ok {
 					in.depth, in.callStack = depth, stack
 					in.lastPanic = gp
+				in.pathNotes = append(in.pathNotes, "caught panic: "+gp.Msg+" at "+gp.Pos)
 					ret = True
 					return
 				}
@@ -191,6 +192,9 @@ func (in *Interp) obligation(kind, label string, c *Term) {
 		ob.Model = in.modelStrings(m)
 		ob.Path = append([]int{}, in.trace...)
 		ob.Detail = "at " + in.where()
+		if n := len(in.pathNotes); n > 0 {
+			ob.Detail += " [" + in.pathNotes[n-1] + "]"
+		}
 	default:
 		ob.Verdict = "unknown"
 		ob.Path = append([]int{}, in.trace...)
